@@ -19,6 +19,8 @@ Inductive case :=
 (* parseInt(s, radix): radix as double bits, None = omitted *)
 | CPInt (s : list Z) (r : option Z) (obs : Z)
 | CPFloat (s : list Z) (obs : Z)
+(* parseInt(x, radix) (fn = 0) / parseFloat(x) (fn = 1) with a Number argument *)
+| CPNum (fn bits : Z) (intlit : bool) (r : option Z) (obs : Z)
 (* source text evaluated as a program: Some bits, None = any error *)
 | CLit (s : list Z) (obs : option Z)
 (* print then parse in one script: 0 parseInt(x.toString(a), a), 1 parseFloat(String(x)),
@@ -84,6 +86,23 @@ Definition is_inf (bits : Z) : bool := (bits =? pinf_bits) || (bits =? ninf_bits
    16 legacy octal literal beyond 2^63 is read as decimal
    17 String(x) of a number written as an integer literal prints every digit (int64 payload) *)
 
+(* 15.1.2.2 with the latitude of step 13 turned into a single expected value: where ES5 admits
+   several results the model's is taken if it is admissible *)
+Definition pint_spec (s : list Z) (rbits md : Z) : Z :=
+  let exact := parse_int s rbits in
+  match parse_int_parts s rbits with
+  | None => exact
+  | Some (neg, rad, ds) =>
+      let v := radix_value rad ds in
+      if parse_int_exact_required rad then
+        if (rad =? 10) && (20 <? lenZ (drop_zeros ds)) then
+          (* digits after the 20th may be read as 0: anything between the two roundings is admissible *)
+          let lo := parse_int_20 s rbits in
+          if (lo <=? md) && (md <=? exact) then md else exact
+        else exact
+      else if v <? 2 ^ 53 then exact else md     (* mathInt may be an approximation *)
+  end.
+
 Definition verdict (c : case) : Z * Z :=
   match c with
   | CStr bits intlit obs same back =>
@@ -144,25 +163,17 @@ Definition verdict (c : case) : Z * Z :=
   | CPInt s r obs =>
       let rbits := match r with Some b => b | None => nan_bits end in
       let md := m_parse_int s rbits in
-      let exact := parse_int s rbits in
-      let sp :=
-        match parse_int_parts s rbits with
-        | None => exact
-        | Some (neg, rad, ds) =>
-            let v := radix_value rad ds in
-            if parse_int_exact_required rad then
-              if (rad =? 10) && (20 <? lenZ (drop_zeros ds)) then
-                (* digits after the 20th may be read as 0: anything between the two roundings is admissible *)
-                let lo := parse_int_20 s rbits in
-                if (lo <=? md) && (md <=? exact) then md else exact
-              else exact
-            else if v <? 2 ^ 53 then exact else md     (* mathInt may be an approximation *)
-        end in
-      let cls := match parse_int_parts s rbits with
-                 | Some (_, rad, ds) => if radix_value rad ds =? 0 then 12 else 13
-                 | None => 13
-                 end in
-      judge Z.eqb obs md sp cls
+      judge Z.eqb obs md (pint_spec s rbits md) 13
+  | CPNum fn bits intlit r obs =>
+      (* the argument is a Number: 15.1.2.2 / 15.1.2.3 step 1 work on ToString(argument) *)
+      let rbits := match r with Some b => b | None => nan_bits end in
+      match value_string_k intlit bits, num_to_string bits with
+      | Some mt, Some st =>
+          if fn =? 0 then
+            let md := m_parse_int mt rbits in judge Z.eqb obs md (pint_spec st rbits md) 13
+          else judge Z.eqb obs (m_parse_float mt) (parse_float st) 14
+      | _, _ => declined
+      end
   | CPFloat s obs => judge Z.eqb obs (m_parse_float s) (parse_float s) 14
   | CChain kind bits a obs =>
       let via (f : list Z -> Z) (r : res) : option Z :=
